@@ -350,6 +350,88 @@ def run_driver(chk):
             if cur_op == "PACK" and not has_resize:
                 chk.violation(r, key + ":resize", "Serializer::%s %s: the buffer is not resized to %s before the PACK pass" % (n_, sig, size_m), *where)
             prev = i
+    # ---- C11.dispatch: which handler a type reaches, and what the handlers put on the wire
+    r_d = chk.rule("C11.dispatch", "Serializer::operator(): pointers go to unique_ptr / shared_ptr, pairs and tuples to tuple, variant, optional, vector, map, array and set to the handler of that name, classes with serializeOp to their serializeOp, and everything else to the packer - packSize added to the size in the PACKSIZE pass, pack in the PACK pass, unpack in the UNPACK pass, on the same buffer and position.  The optional / unique_ptr handlers write a presence flag and the value only when present, and read them back under the same flag", floor=12)
+    ops = [f for f in fx.fns if f["q"] == "Opm::Serializer::operator()" and f.get("body")]
+    if len(ops) != 1:
+        raise core.AnalysisBroken("Serializer::operator(): %d definitions" % len(ops))
+    op = ops[0]
+    WANT_H = {"is_pair_or_tuple": "tuple", "is_variant": "variant", "is_optional": "optional", "is_vector": "vector", "is_map": "map", "is_array": "array", "is_set": "set"}
+    node = stmt_list(op["body"])[0] if stmt_list(op["body"]) else None
+    seen_t = {}
+    last = None
+    while node is not None and node.get("k") == "If":
+        trait = re.sub(r"<.*", "", (strip(node["cond"]).get("qual") or show(node["cond"])).replace("detail::", ""))
+        calls = [x.get("m") or ((x.get("callee") or {}).get("n")) for x in walk(node["then"]) if x["k"] in ("MCall", "Call")]
+        seen_t[trait] = (calls, node)
+        last = node.get("else")
+        node = last
+    for trait, want in WANT_H.items():
+        g = seen_t.get(trait)
+        chk.instance(r_d, trait, sample=dict(trait=trait, handler=g[0] if g else None))
+        if not g or g[0] != [want]:
+            chk.violation(r_d, trait, "Serializer::operator() sends types with %s to %s; the handler for them is %s(): the data is written in a form the matching reader does not expect (or not at all)" % (trait, g[0] if g else "nothing", want), op["file"], g[1]["l"] if g else op["l"])
+    g = seen_t.get("is_ptr")
+    okp = False
+    if g:
+        inner = [n for n in walk(g[1]["then"]) if n["k"] == "If"]
+        if len(inner) == 1 and "is_unique_ptr" in (strip(inner[0]["cond"]).get("qual") or show(inner[0]["cond"])):
+            t_ = [x.get("m") or ((x.get("callee") or {}).get("n")) for x in walk(inner[0]["then"]) if x["k"] in ("MCall", "Call")]
+            e_ = [x.get("m") or ((x.get("callee") or {}).get("n")) for x in walk(inner[0].get("else") or {"k": "Block", "c": []}) if x["k"] in ("MCall", "Call")]
+            okp = t_ == ["unique_ptr"] and e_ == ["shared_ptr"]
+    chk.instance(r_d, "is_ptr", sample=dict(ok=okp))
+    if not okp:
+        chk.violation(r_d, "is_ptr", "Serializer::operator() must send unique_ptr types to unique_ptr() and the other pointer types to shared_ptr()", op["file"], g[1]["l"] if g else op["l"])
+    g = seen_t.get("has_serializeOp")
+    oks = bool(g) and g[0] == ["serializeOp"] and any(x["k"] == "Un" and x.get("op") == "*" and strip(x["c"][0]).get("k") == "This" for c_ in walk(g[1]["then"]) if c_["k"] in ("MCall", "Call") for a_ in c_.get("a") or [] for x in walk(a_))
+    chk.instance(r_d, "has_serializeOp", sample=dict(ok=oks))
+    if not oks:
+        chk.violation(r_d, "has_serializeOp", "Serializer::operator() must hand itself to the class's serializeOp", op["file"], g[1]["l"] if g else op["l"])
+    prim = {}
+    node = last
+    nodes_ = stmt_list(node) if node is not None else []
+    cur = nodes_[0] if nodes_ else None
+    while cur is not None and cur.get("k") == "If":
+        en = [x["n"] for x in walk(cur["cond"]) if x.get("k") in ("Ref", "DRef", "ULookup") and x.get("n") in ("PACKSIZE", "PACK", "UNPACK")]
+        eqop = strip(cur["cond"]).get("op")
+        prim[en[0] if len(en) == 1 and eqop == "==" else "?"] = show(cur["then"]).replace(" ", "")
+        cur = cur.get("else")
+    want_p = {"PACKSIZE": r"\(this\.m_packSize\+=this\.m_packer\.packSize\(data\)\)", "PACK": r"this\.m_packer\.pack\(data,this\.m_buffer,this\.m_position\)", "UNPACK": r"this\.m_packer\.unpack\((\(T&\))?data,this\.m_buffer,this\.m_position\)"}
+    for k_, rx in want_p.items():
+        chk.instance(r_d, "primitive:" + k_, sample=dict(pass_=k_, does=prim.get(k_)))
+        if not prim.get(k_) or not re.fullmatch(rx, prim[k_]):
+            chk.violation(r_d, "primitive:" + k_, "Serializer::operator(), plain data in the %s pass: found %s; PACKSIZE adds packSize(data) to the size, PACK packs and UNPACK unpacks data at (m_buffer, m_position)" % (k_, prim.get(k_)), op["file"], op["l"])
+    # presence flags
+    for hname, flagw, flagr in (("optional", r"data\.has_value\(\)", None), ("unique_ptr", r"\(data\?1:0\)|\(data\.operatorbool\(\)\?1:0\)", 1)):
+        hs = [f for f in fx.fns if f.get("cls") == "Opm::Serializer" and f["n"] == hname and f.get("body")]
+        if len(hs) != 1:
+            raise core.AnalysisBroken("Serializer::%s: %d definitions" % (hname, len(hs)))
+        h = hs[0]
+        top = [n for n in stmt_list(h["body"]) if n["k"] == "If" and n.get("else") is not None and any(x.get("n") == "UNPACK" for x in walk(n["cond"]))]
+        ok = False
+        det = {}
+        if len(top) == 1:
+            c = strip(top[0]["cond"])
+            unp, wr = (top[0]["then"], top[0]["else"]) if c.get("op") == "==" else (top[0]["else"], top[0]["then"]) if c.get("op") == "!=" else (None, None)
+            if unp is not None:
+                w_st = stmt_list(wr)
+                u_st = stmt_list(unp)
+                w_flag = show(strip(w_st[0]["a"][0])).replace(" ", "") if w_st and w_st[0]["k"] in ("Call", "OpCall") and w_st[0].get("a") else None
+                w_if = [n for n in w_st[1:] if n["k"] == "If"]
+                w_cond = show(strip(w_if[0]["cond"])).replace(" ", "").replace(".operatorbool()", "") if w_if else None
+                w_pay = [show(x).replace(" ", "") for x in walk(w_if[0]["then"]) if x["k"] == "Call" and strip(x.get("callee") or {}).get("k") == "Un"] if w_if else []
+                u_flagvar = [v["n"] for n in u_st if n["k"] == "Decl" for v in n["vars"]][:1]
+                u_read = [n for n in u_st if n["k"] == "Call" and n.get("a") and strip(n["a"][0]).get("n") in u_flagvar]
+                u_if = [n for n in u_st if n["k"] == "If"]
+                u_cond = show(strip(u_if[0]["cond"])).replace(" ", "") if u_if else None
+                u_pay = [x for x in walk(u_if[0]["then"]) if x["k"] == "Call" and strip(x.get("callee") or {}).get("k") == "Un"] if u_if else []
+                det = dict(written_flag=w_flag, value_written_if=w_cond, value_written=w_pay, flag_read=bool(u_read), value_read_if=u_cond, value_read=len(u_pay))
+                want_ucond = [u_flagvar[0]] if flagr is None and u_flagvar else ["(%s==%d)" % (u_flagvar[0], flagr)] if u_flagvar else []
+                ok = w_flag is not None and re.fullmatch(flagw, w_flag.replace(".operatorbool()", "")) is not None and w_cond in ("data.has_value()", "data") and len(w_pay) == 1 and "(*data)" in w_pay[0] \
+                    and len(u_read) == 1 and u_cond in want_ucond and len(u_pay) == 1
+        chk.instance(r_d, "flag:" + hname, sample=det)
+        if not ok:
+            chk.violation(r_d, "flag:" + hname, "Serializer::%s must write a presence flag followed by the value only when present, and read the flag back and the value under the same flag (%s): writer and reader disagree about whether a value follows, and every later field is read from the wrong bytes" % (hname, det), h["file"], h["l"])
     chk.assumptions += ["Serializer.hpp is parsed through probes/serializer_probe.cpp (no library unit includes it); its member templates are analysed uninstantiated"]
 
 
